@@ -421,9 +421,9 @@ def _make_db(genes):
                          % (exons[0][0], exons[-1][1], strand, gid, t_id))
             for e in exons:
                 lines.append('chr1\tsyn\texon\t%d\t%d\t.\t%s\t.\tgene_id "%s"; transcript_id "%s";' % (e[0], e[1], strand, gid, t_id))
-    return gffutils.create_db("\n".join(lines) + "\n", ":memory:", from_string=True, force=True, keep_order=True,
-                              merge_strategy='error', sort_attribute_values=True,
-                              disable_infer_transcripts=True, disable_infer_genes=True)
+    return vlib.gff_db_from_string("\n".join(lines) + "\n", force=True, keep_order=True,
+                                   merge_strategy='error', sort_attribute_values=True,
+                                   disable_infer_transcripts=True, disable_infer_genes=True)
 
 
 def _gene_variants(rng, base, genome):
